@@ -32,9 +32,10 @@ package service
 //@      raw[KNewQ(ctxHeight(ctx), requestContextID)] == bnil && raw[KNewH(requestContextID)] == bnil
 //@ ensures [C11] queue_entry_consumed_when_a_price_is_not_in_base_denom: !allBase(old(raw), requestContext.ServiceName, requestContext.Providers) && requestContext.State == RUNNING ==>
 //@      raw[KNewQ(ctxHeight(ctx), requestContextID)] == bnil && raw[KNewH(requestContextID)] == bnil
-//@ ensures [C11,C16,C03] touches_no_other_context_queue_entry_or_binding: forall k Key :: {raw[k]}
+//@ ensures [C11,C16] touches_no_other_context_or_queue_entry: forall k Key :: {raw[k]}
 //@      ((is_KCtx(k) && k != KCtx(requestContextID)) || (is_KNewQ(k) && k != KNewQ(ctxHeight(ctx), requestContextID)) || (is_KNewH(k) && k != KNewH(requestContextID)) ||
-//@       (is_KExpQ(k) && k != KExpQ(wrap_i64(ctxHeight(ctx) + requestContext.Timeout), requestContextID)) || (is_KExpH(k) && k != KExpH(requestContextID)) || is_KBind(k) || is_KPricing(k) || is_KVol(k)) ==> raw[k] == old(raw)[k]
+//@       (is_KExpQ(k) && k != KExpQ(wrap_i64(ctxHeight(ctx) + requestContext.Timeout), requestContextID)) || (is_KExpH(k) && k != KExpH(requestContextID))) ==> raw[k] == old(raw)[k]
+//@ ensures [C03,C15,C07] touches_no_binding_price_terms_or_volume: forall k Key :: {raw[k]} (is_KBind(k) || is_KPricing(k) || is_KVol(k)) ==> raw[k] == old(raw)[k]
 //@ ensures [C09] not_running_means_no_batch: requestContext.State != RUNNING ==> bal == old(bal) && cblog == old(cblog) &&
 //@      raw == old(raw)[KNewQ(ctxHeight(ctx), requestContextID) := bnil][KNewH(requestContextID) := bnil]
 //@ ensures [C06] skipped_without_charge_when_too_few_eligible: (let rc := requestContext in
